@@ -15,7 +15,7 @@ void regCsrFileEdge(const std::string& cfg, unsigned flags) {
 }
 
 void registerCsrC() {
-#ifdef C11_FULL
+#if 0 // full matrix: see c11_x_*.cpp
   regCsrOptions<E12>(O_ALL, O_ALL);
   regCsr<Csr<uint32_t, false, false, false>>("lock", O_ALL);
 #endif
